@@ -15,12 +15,23 @@ kind validates), observers stratified: far, inside, near and exactly on the axis
 (also with interior/exterior z and on the edge), exactly on the bases, within 1e-16..1e-3 (relative) of the surfaces on
 either side; polarization axial-only / transversal-only / mixed / zero; fields B/H/J/M; sizes 1e-3..1e3; tolerance
 1e-9 of max(|value|, polarization scale) (largest deviation seen in 1e5 rows: 3e-12).  Kind `cylmask`: the inside mask (J of a probe polarization != 0) and the
-on-edge mask (B of the probe polarization == 0 exactly) against `Kern.cylMasks`, exactly.""" 
+on-edge mask (B of the probe polarization == 0 exactly) against `Kern.cylMasks`, exactly.
+Kinds `cylsegcase`, `cylsegblock`, `cylsegH`, `cylseg`, `cylsegell`, `cylsegel3` (list CYLSEG_KINDS, generators in corr/cylseg_rows.py): the
+CylinderSegment port — translated case functions and dispatch (Model/CylSeg.lean), hand-written boundary sum and wrappers
+(Model/CylSegWrap.lean), Carlson substitutes for scipy's ellipkinc/ellipeinc and the port of el3_angle (Model/CylSegSpecial.lean).
+Tolerances from measured deviations (40 000 wrapper rows, 20 000 block rows, 6 000 H rows): case id exact; 3x3 blocks 1e-10 of the block's largest
+entry (largest seen 1.3e-12); `cylsegH` 1e-9 of max(|value|, M/4pi) (largest seen 1.5e-11, case ids 213/215/233/235); wrapper rows 1e-10 of the
+polarization scale (largest seen 3e-13) except observers in the bore at 1e-3 outer radii from the axis of a segment without bore: 1e-8 (largest seen
+5.8e-10 — cancellation in the real formulas amplifies the last-digit differences of the elliptic integrals); ellipkinc/ellipeinc 1e-13 (2.3e-15), el3_angle 1e-10 (3e-16).""" 
 import struct
 
 import numpy as np
 
 from vlib.driver import run_driver
+
+from . import cylseg_rows
+
+CYLSEG_KINDS = ["cylsegcase", "cylsegblock", "cylsegH", "cylseg", "cylsegH", "cylseg", "cylsegblock", "cylseg", "cylsegell", "cylsegel3", "cylsegatan"]
 
 
 def bits(x):
@@ -126,6 +137,12 @@ def run_stream(ctx, n, only=None):
         kinds = only or ["dipole", "sphere", "segment", "cuboidmask", "cuboid", "triangle", "tetra", "circle", "tetrainside", "cel0", "celiter", "cylinder", "cylmask", "cylinder"]  # cylinder twice: twelve observer strata x six polarization kinds
         kind = kinds[i % len(kinds)]
         sc = 10.0 ** nps.uniform(-3, 3)
+        if kind.startswith("cylseg"):
+            ln, ex, m = cylseg_rows.row_wrapper(rng, nps, mu_0) if kind == "cylseg" else cylseg_rows.KINDS[kind](rng, nps)
+            lines.append(ln)
+            expect.append(ex)
+            meta.append(m)
+            continue
         f = rng.choice("BHJM")
         if kind == "dipole":
             m, x = nps.uniform(-1, 1, 3) * sc**3, nps.uniform(-2, 2, 3) * sc
@@ -311,17 +328,81 @@ def run_stream(ctx, n, only=None):
         meta.append({"kind": kind, "field": f, "line": lines[-1][:80]})
     out = run_driver(lines)
     stats = {"rows": len(lines), "per_kind": {}, "disagreements": 0, "nonzero_rows": 0, "branch": {}, "cylinder_strata": {},
-             "cylinder_max_reldiff": 0.0}
+             "cylinder_max_reldiff": 0.0, "cylseg_case_ids": {}, "cylseg_max_reldiff_by_case_id": {}, "cylseg_max_reldiff_by_kind": {},
+             "cylseg_strata": {}, "cylseg_real_code_raised": []}
     samples = []
     for ln, o, (typ, exp, scale), m in zip(lines, out, expect, meta):
         stats["per_kind"][m["kind"]] = stats["per_kind"].get(m["kind"], 0) + 1
-        if "stratum" in m:
+        if "stratum" in m and not m["kind"].startswith("cylseg"):
             for key in (m["stratum"], "pol:" + m["pol"] if "pol" in m else "mask-row"):
                 stats["cylinder_strata"][key] = stats["cylinder_strata"].get(key, 0) + 1
-        if typ == "mask":
+        if m["kind"].startswith("cylseg"):
+            if m["kind"] == "cylsegcase":
+                stats["cylseg_case_ids"][exp] = stats["cylseg_case_ids"].get(exp, 0) + 1
+            for part in m.get("stratum", "").split():
+                stats["cylseg_strata"][part] = stats["cylseg_strata"].get(part, 0) + 1
+            if "raised" in m and len(stats["cylseg_real_code_raised"]) < 5:
+                stats["cylseg_real_code_raised"].append(m)
+        if typ == "hang":
+            ok, got = False, "real code did not return within the watchdog time"
+        elif typ == "block":
+            cid, blk = exp
+            toks = o.split()
+            got = o
+            if not toks or toks[0] != str(cid):
+                ok = False
+            elif blk is None:
+                ok = toks[1:] == ["none"]
+                stats["branch"]["unhandled-case-id"] = stats["branch"].get("unhandled-case-id", 0) + 1
+            else:
+                try:
+                    got = np.array([unbits(t) for t in toks[1:]]).reshape(3, 3)
+                except Exception:
+                    ok = False
+                else:
+                    if "raised" in m:  # the real call raised: the model shows NaN in the entry concerned
+                        ok = bool(np.any(np.isnan(got)))
+                    else:
+                        fin = blk[np.isfinite(blk)]
+                        bsc = max(float(np.max(np.abs(fin))) if fin.size else 0.0, 1e-300)
+                        same = (np.isnan(got) & np.isnan(blk)) | (got == blk)
+                        with np.errstate(all="ignore"):
+                            rd = np.where(same, 0.0, np.abs(got - blk) / np.maximum(np.maximum(np.abs(got), np.abs(blk)), bsc))
+                        ok = bool(np.all(rd <= 1e-10))
+                        if ok:
+                            key = str(cid)
+                            stats["cylseg_max_reldiff_by_case_id"][key] = max(stats["cylseg_max_reldiff_by_case_id"].get(key, 0.0), float(np.max(rd)))
+                        if np.any(blk != 0):
+                            stats["nonzero_rows"] += 1
+        elif typ == "mask":
             stats["branch"][exp] = stats["branch"].get(exp, 0) + 1
             ok = o == exp
             got = o
+        elif m["kind"].startswith("cylseg"):
+            try:
+                got = np.full(len(exp), np.nan) if o == "none" else np.array([unbits(t) for t in o.split()])
+            except Exception:
+                got, ok = o, False
+            else:
+                if "raised" in m:
+                    ok = bool(np.any(np.isnan(got)))
+                else:
+                    tol = {"cylsegH": 1e-9, "cylsegell": 1e-13, "cylsegel3": 1e-10, "cylsegatan": 1e-13}.get(m["kind"], 1e-8 if "obs:bore" in m.get("stratum", "") else 1e-10)
+                    same = (np.isnan(got) & np.isnan(exp)) | (got == exp)
+                    with np.errstate(all="ignore"):
+                        rd = np.where(same, 0.0, np.abs(got - exp) / np.maximum(np.maximum(np.abs(got), np.abs(exp)), scale))
+                    ok = bool(np.all(rd <= tol))
+                    if ok:
+                        mx = float(np.max(rd))
+                        stats["cylseg_max_reldiff_by_kind"][m["kind"]] = max(stats["cylseg_max_reldiff_by_kind"].get(m["kind"], 0.0), mx)
+                        if m["kind"] == "cylsegH":
+                            for cid in m.get("ids", []):
+                                key = "H:" + str(cid)
+                                stats["cylseg_max_reldiff_by_case_id"][key] = max(stats["cylseg_max_reldiff_by_case_id"].get(key, 0.0), mx)
+                    if np.any(np.isnan(exp)):
+                        stats["branch"]["nan-row"] = stats["branch"].get("nan-row", 0) + 1
+                    if np.any(exp != 0) and not np.all(np.isnan(exp)):
+                        stats["nonzero_rows"] += 1
         else:
             try:
                 got = np.array([unbits(t) for t in o.split()])
@@ -343,7 +424,7 @@ def run_stream(ctx, n, only=None):
             stats["disagreements"] += 1
             if stats["disagreements"] <= 3:
                 ctx.broken.append({"kind": "correspondence", "name": "kern:" + m["kind"],
-                                   "detail": {"meta": m, "model": str(got), "real": str(exp), "maxreldiff": float(np.max(np.abs(np.asarray(got, dtype=float) - exp)) / max(np.max(np.abs(exp)), scale)) if not isinstance(got, str) else None}})
+                                   "detail": {"meta": m, "model": str(got), "real": str(exp), "maxreldiff": float(np.max(np.abs(np.asarray(got, dtype=float) - exp)) / max(np.max(np.abs(exp)), scale)) if (typ == "vec" and not isinstance(got, str)) else None}})
         elif len(samples) < 3 and typ == "vec":
             samples.append({**m, "real": np.asarray(exp).tolist()})
     stats["samples"] = samples
